@@ -671,16 +671,32 @@ func initBig() {
 		if !y.IsConst() {
 			// fork over the feasible exponents up to the harness bound (cfg maxExp, default 64)
 			mx := e.cfgInt("maxExp", 64)
-			if e.decide(e.b.IntBin(OIntLT, y, e.b.IntI(0))) {
+			// an exponent that is a machine integer stays in bit-vector arithmetic (mixing Int and BV leaves queries undecided)
+			yb, isBV := e.asSignedBV(y)
+			lt0 := e.b.IntBin(OIntLT, y, e.b.IntI(0))
+			eqK := func(k int) *Term { return e.b.Eq(y, e.b.IntI(int64(k))) }
+			huge := e.b.IntBin(OIntLE, e.b.IntC(pow(2, 28)), y)
+			if isBV {
+				lt0 = e.b.Bin(OBvSLT, yb, e.b.BVi(0, 64))
+				eqK = func(k int) *Term { return e.b.Eq(yb, e.b.BVi(int64(k), 64)) }
+				huge = e.b.Bin(OBvSLE, e.b.BVi(1<<28, 64), yb)
+			}
+			if e.decide(lt0) {
 				return e.setBig(a[0], e.b.IntI(1))
 			}
 			for k := 0; k <= mx; k++ {
-				if e.decide(e.b.Eq(y, e.b.IntI(int64(k)))) {
+				if e.decide(eqK(k)) {
 					y = e.b.IntI(int64(k))
 					break
 				}
 			}
 			if !y.IsConst() {
+				// an exponent the input can push to 2^28 or more is a resource event: the power alone has more than
+				// 100 MB (native confirmation: > 64 MiB allocated, out of memory, or no answer within the replay timeout)
+				if e.x.feasible(huge) == "sat" {
+					e.x.report("alloc", "math/big.Int.Exp", e.userFunc(), "exponent taken from the input can reach 2^28 or more (a power of more than 100 MB)", huge)
+					panic(pathEnd{"huge exp"})
+				}
 				e.x.sh.mu.Lock()
 				e.x.sh.assumptions[fmt.Sprintf("bound: big.Int.Exp exponent <= %d (larger exponents outside the claim)", mx)]++
 				e.x.sh.mu.Unlock()
